@@ -23,7 +23,7 @@ ASSUMPTIONS = ["(a)/(c): the polyline crossing finder (vp/ref/xgeom.py) locates 
                "cannot classify are discarded and counted", "(b): vp/ref/exactgeom.py Sturm sequences in Fractions"]
 CONFIGS = ['scipy']
 BUDGET = {'quick': 16000, 'thorough': 300000}
-REQUIRED = ['a:special:arch', 'a:special:long_arc', 'a:kept', 'a:pair:AC', 'a:pair:CA', 'a:pair:LA', 'a:pair:QQ', 'a:pair:CC', 'a:arc_sweep0', 'a:arc_sweep1', 'b:kept',
+REQUIRED = ['a:pre:queried', 'a:pre:from_reversed', 'a:special:arch', 'a:special:long_arc', 'a:kept', 'a:pair:AC', 'a:pair:CA', 'a:pair:LA', 'a:pair:QQ', 'a:pair:CC', 'a:arc_sweep0', 'a:arc_sweep1', 'b:kept',
             'b:count1', 'b:count2', 'b:count0', 'c:kept', 'b:count3']
 CASE_TIMEOUT = 20
 TIME_LIMIT = {'quick': 250, 'thorough': 3300}
@@ -79,7 +79,8 @@ def constructed(draw):
     else:
         s1 = draw(arc_through(u1)) if k1 == 'A' else draw(c11.curve_through(k1, P, u1, sc))
     s2 = draw(arc_through(u2)) if k2 == 'A' else draw(c11.curve_through(k2, P, u2, sc))
-    return {'what': 'a', 'scale': sc, 's1': s1, 's2': s2, 'P': [P.real, P.imag], 'u1': u1, 'u2': u2, 'special': special if k2 in 'QC' else 'none'}
+    return {'what': 'a', 'scale': sc, 's1': s1, 's2': s2, 'P': [P.real, P.imag], 'u1': u1, 'u2': u2, 'special': special if k2 in 'QC' else 'none',
+            'pre': draw(st.sampled_from(['none', 'none', 'none', 'queried', 'from_reversed']))}
 
 
 ipt = st.tuples(st.integers(-8, 8), st.integers(-8, 8)).map(list)
@@ -179,6 +180,20 @@ def check_constructed(case, ctx):
     b = ctx.lib('build', gen.build_seg, s2)
     if type(a) is type(b) and a == b:
         ctx.discard('identical segments')
+    pre = case.get('pre', 'none')
+    if pre == 'queried':
+        # operands with a past: their caches are filled by other queries first
+        for sg in (a, b):
+            ctx.lib('warm', sg.length)
+            ctx.lib('warm', sg.bbox)
+            ctx.lib('warm', sg.point, 0.3)
+        ctx.count('a:pre:queried')
+    elif pre == 'from_reversed':
+        # ... or are the product of reversed() applied to the mirror-image segments (same curves, same parameterisation)
+        from vp.props.c09 import _rev_spec
+        a = ctx.lib('reversed', ctx.lib('build', gen.build_seg, _rev_spec(s1)).reversed)
+        b = ctx.lib('reversed', ctx.lib('build', gen.build_seg, _rev_spec(s2)).reversed)
+        ctx.count('a:pre:from_reversed')
     pair = s1[0] + s2[0]
     ctx.count('a:kept')
     if case.get('special', 'none') != 'none':
